@@ -18,6 +18,18 @@ Empty files (since /repo d89a92e `_set_files` drops them itself, by the size it 
 spelling, with and without unrelated same-named files below the cwd; `empty_family()` is a fixed
 set of such trees that runs on every seed.  The `files` setter (outside C15's statement) is tied
 to the model `filesSetter` as correspondence only (`c15.files`).
+
+Names are opaque (round 6): file and directory names that some layer between the caller and the OS
+could interpret (`~`, `~user`, `$HOME`, `${X}`, `%s`, `{0}`, `*`, `?`, `[a]`, `!x`, `-x`, `#`, leading /
+trailing space, trailing dot, backslash, colon, `.torrent`, quotes, shell operators …) occur as tree
+names, as names of the directories above the tree (so that they are the *first segment* of a relative
+spelling), and nested; every variant runs under a process environment of its own (`penv`: $HOME a
+scratch directory that holds other files of the same names / an empty one / a missing one, $USER,
+and every variable a name mentions set to a directory that exists).  Every spelling must give the
+absolute-path result (= the Lean specification, `C15_eq_absolute`); `special_family()` is the
+fixed part, and each of its trees has a *twin* with all names replaced by plain ones in an order-
+and dot-preserving way whose results must be the renamed results (`C15_names_opaque`, op
+`c15.opaque`).
 """
 import fnmatch
 import hashlib
@@ -42,6 +54,13 @@ RULE = ('groups = (tree, pattern settings); trees: <= 12 files, nesting <= 3, hi
         'dir / file / empty dir / missing / None, every list operation on the four pattern lists: assignment, append, '
         'extend, +=, insert, remove, pop, clear, item assignment / deletion, reverse), biased towards states in which '
         'every file is excluded, each state compared with a fresh Torrent(path, current patterns) and the Lean trace; '
+        'names that a shell / expanduser / expandvars / glob / format / option layer could interpret (~ ~user $HOME ${X} %s {0} * ? [a] '
+        '!x -x # " x" "x " x. \\ : .torrent quotes ; | & ` $( ) < > tab newline) as tree name, as the name of the directory above '
+        'the tree (first segment of a relative spelling from the grandparent directory), and nested, in a fixed family '
+        '(every such name: all variants under the decoy environment, a fifth of them also under each of the other two) and in ~1/3 of the random groups; every variant runs under '
+        'one of 3 process environments (HOME = scratch directory with same-named other files / empty / missing; USER; every '
+        'variable mentioned in a name set to an existing directory); each tree of the fixed family also as a twin with plain '
+        'names (order- and dot-preserving renaming), results compared modulo the renaming; '
         'non-trivial = tree with >= 2 files addressed other than by its bare name from its parent / history with a '
         'pattern change; distinct = distinct (tree, settings, location, cwd, spelling) / distinct (world, history)')
 
@@ -52,6 +71,9 @@ ASSUMPTIONS = [
     'piece length is not modelled: it must be equal for all variants of a group that meet the specification',
     'in the empty result (no file kept) info has neither files nor length; the lazily defaulted Torrent.name is not observed',
     'files are readable (permission errors are C08/ReadError territory)',
+    'the process environment (HOME, USER, LOGNAME, variables named in file names) is an input of the real run only: the model has no '
+    'access to it (Env = cwd, spelling, listing order, os.path.exists), so any dependence on it is a deviation; HOME is never the real '
+    'home directory and never unset (a layer that expands ~ must not be led to walk /root)',
     'os.path.exists agrees with what os.walk has just listed (no change of the file system between the two; hypothesis listedExist)',
     'histories: the world is static (no chdir, no change of the trees between operations); settings = the four pattern lists and path; '
     'the callback firings of a list operation are recorded from the running object (subclass overriding _filters_changed), '
@@ -69,14 +91,40 @@ FILE_NAMES = ['a.txt', 'A.TXT', 'b.txt', 'B.txt', 'b.TXT', 'c.dat', '.hidden', '
               '...', 'e', 'T']
 
 
-def gen_tree(rng, shape):
-    name = rng.choice(ROOT_NAMES)
+# names that some layer could interpret: home-directory expansion, variable expansion, format
+# strings, glob / regex syntax, history / option / comment characters of shells, white space,
+# Windows-isms, the library's own suffix.  `~nobody` has a passwd entry whose home directory does not
+# exist, `~games` / `~backup` entries whose home directories exist and are empty (Debian).
+SPECIAL_NAMES = [
+    '~', '~nobody', '~games', '~backup', '~nosuchuser', '~+', '~-', '~0', 'a~', '~.txt',
+    '$HOME', '${HOME}', '$X', '${X}', '$USER', '%HOME%', '$$', '$', '$(id)', '`id`',
+    '%s', '%(a)s', '%d', '%', '%%', '{0}', '{}', '{name}', '{abs}', '{', '}',
+    '*', '**', '?', '[a]', '[!a]', '[', ']', 'a*', '*.txt', '?.txt', '(a|b)', '.*', '^a', 'a$', '+',
+    '!x', '!', '-x', '--help', '-', '--', '#', '#x', ' lead', 'trail ', ' ', '  ', 'a b ', 'dot.', 'dots..', '....',
+    '\\', 'a\\b', '\\n', ':', 'a:b', 'C:', '.torrent', 'x.torrent', 'torrent', '&', ';', '|', '"', "'", '<', '>', 'a\tb', 'a\nb',
+    '@', '=', ',', '~a', 'NUL', 'con',
+]
+# what has to exist beside a special name so that an interpreting layer finds something else
+SPECIAL_SIBLINGS = {'[a]': 'a', '[!a]': 'b', '?': 'x', '?.txt': 'a.txt', '*.txt': 'a.txt', 'a*': 'ab', ' lead': 'lead',
+                    'trail ': 'trail', 'a b ': 'a b', 'dot.': 'dot', 'dots..': 'dots', '(a|b)': 'a', '.*': 'zz', '^a': 'a',
+                    'a$': 'a', '\\n': 'n', 'a\\b': 'ab', '%s': 's', '%%': '%', '$$': '$', '{name}': 'name', '--': '-',
+                    ' ': 'x', '  ': ' ', '~a': 'a'}
+
+
+def gen_tree(rng, shape, special=False):
+    roots, dnames, fnames = ROOT_NAMES, DIR_NAMES, FILE_NAMES
+    if special:
+        sp = rng.sample(SPECIAL_NAMES, 6)
+        roots = sp[:2] + ['T']
+        dnames = sp[1:4] + rng.sample(DIR_NAMES, 4)
+        fnames = sp[2:6] + [SPECIAL_SIBLINGS.get(x, 'a') for x in sp[1:4]] + rng.sample(FILE_NAMES, 5)
+    name = rng.choice(roots)
     if shape == 'file':
-        return {'name': rng.choice(['a.txt', '.hidden', 'B.TXT', 'x y', 'ü.dat', 'f.']),
+        return {'name': rng.choice(sp[:3] if special else ['a.txt', '.hidden', 'B.TXT', 'x y', 'ü.dat', 'f.']),
                 'files': [{'rel': [], 'size': rng.choice([0, 1, 5, 40])}], 'dirs': []}
     files = {}
     n = {'empty-tree': 0, 'single-file-in-dir': 1}.get(shape, rng.randint(2, 12))
-    top = rng.choice(DIR_NAMES)
+    top = rng.choice(dnames)
     tries = 0
     while len(files) < n and tries < 200:
         tries += 1
@@ -85,19 +133,19 @@ def gen_tree(rng, shape):
             depth = max(depth, 1)
         if shape == 'single-file-in-dir':
             depth = rng.choice([0, 1, 2])
-        dirs = [rng.choice(DIR_NAMES) for _ in range(depth)]
+        dirs = [rng.choice(dnames) for _ in range(depth)]
         if shape == 'single-dir' and dirs:
             dirs[0] = top
         if shape == 'all-hidden':
             if dirs and rng.random() < 0.7:
                 dirs[rng.randrange(len(dirs))] = rng.choice(['.hid', '.git'])
-                fn = rng.choice(FILE_NAMES)
+                fn = rng.choice(fnames)
             else:
                 fn = rng.choice(['.hidden', '.a.txt'])
             if rng.random() < 0.5 and dirs:
                 dirs[0] = '.hid'
         else:
-            fn = rng.choice(FILE_NAMES)
+            fn = rng.choice(fnames)
         rel = tuple(dirs + [fn])
         # a path is either a file or a directory
         if any(rel[:k] in files for k in range(1, len(rel))):
@@ -188,9 +236,14 @@ def first_dirs(tree):
     return child, grand
 
 
-def variants_for(tree, rng, full=True):
-    """symbolic variants: cwd in {parent, tree, child:<rel>, unrelated}, spelling templates with
-    {abs} {name} {P} {child} {rel_from_U}"""
+PENVS = ['decoy', 'void', 'gone']
+
+
+def variants_for(tree, rng, full=True, penvs=None):
+    """symbolic variants: cwd in {grandparent, parent, tree, child, grand, unrelated}, spelling templates
+    with the placeholders {abs} {name} {P} {absdd} {abs_up} {rel_from_U} {child} {grand} (substituted in
+    one pass, so names that contain braces are never re-read), and the process environment `penv`
+    the variant runs under (`penvs`: None = one at random, else the cross product)"""
     isfile = any(not f['rel'] for f in tree['files'])
     v = []
     par = ['{name}', './{name}', '{abs}', '../{P}/{name}', './/{name}', '{absdd}', '{abs_up}']
@@ -201,28 +254,37 @@ def variants_for(tree, rng, full=True):
     v.append(('unrelated', '{abs}'))
     v.append(('unrelated', '{rel_from_U}'))
     v.append(('unrelated', '/{abs}'))
+    # the name of the directory above the tree as the first segment
+    v.append(('grandparent', '{P}/{name}'))
+    v.append(('grandparent', './{P}/../{P}/{name}'))
     if not isfile:
+        v.append(('grandparent', '{P}/{name}/'))
+        v.append(('grandparent', '{P}/./{name}/.'))
         for s in ['.', './', './/.', '../{name}', '{abs}']:
             v.append(('tree', s))
         child, grand = first_dirs(tree)
         if child:
-            c = '/'.join(child)
-            v.append(('parent', '{name}/' + c + '/..'))
-            v.append(('tree', c + '/..'))
-            for s in ['..', '../', '../.', './..', '../../{name}', '{abs}', '../' + c + '/..',
-                      '../../../{P}/{name}/', '.././' + c + '/../.']:
-                v.append(('child:' + c, s))
-            v.append(('tree', '../{name}/' + c + '/..'))
-            v.append(('parent', './{name}/' + c + '/.././'))
-            v.append(('unrelated', '{rel_from_U}/' + c + '/..'))
+            v.append(('parent', '{name}/{child}/..'))
+            v.append(('tree', '{child}/..'))
+            for s in ['..', '../', '../.', './..', '../../{name}', '{abs}', '../{child}/..',
+                      '../../../{P}/{name}/', '.././{child}/../.']:
+                v.append(('child', s))
+            v.append(('tree', '../{name}/{child}/..'))
+            v.append(('parent', './{name}/{child}/.././'))
+            v.append(('unrelated', '{rel_from_U}/{child}/..'))
+            v.append(('grandparent', '{P}/{name}/{child}/..'))
         if grand:
-            g = '/'.join(grand)
-            for s in ['../..', '../../.', '../../../{name}', '../../../{name}/' + g + '/../..']:
-                v.append(('child:' + g, s))
+            for s in ['../..', '../../.', '../../../{name}', '../../../{name}/{grand}/../..']:
+                v.append(('grand', s))
+            v.append(('tree', '{grand}/../..'))
     if not full:
         rng.shuffle(v)
         v = v[:8]
-    return [{'cwd': c, 'spelling': s, 'wseed': rng.randrange(1 << 30)} for c, s in v]
+    out = []
+    for c, s in v:
+        for pe in (penvs or [rng.choice(PENVS)]):
+            out.append({'cwd': c, 'spelling': s, 'wseed': rng.randrange(1 << 30), 'penv': pe})
+    return out
 
 
 SHAPES = ['multi'] * 6 + ['single-dir'] * 2 + ['single-file-in-dir', 'file', 'all-hidden', 'all-empty', 'empty-tree']
@@ -230,15 +292,19 @@ SHAPES = ['multi'] * 6 + ['single-dir'] * 2 + ['single-file-in-dir', 'file', 'al
 
 def gen_group(rng, gid):
     shape = rng.choice(SHAPES)
-    tree = gen_tree(rng, shape)
+    special = rng.random() < 0.35
+    tree = gen_tree(rng, shape, special)
     st = gen_settings(rng, tree)
     decoy = []
     if tree['files'] and rng.random() < 0.25:
         for f in rng.sample(tree['files'], min(2, len(tree['files']))):
             if f['rel']:
                 decoy.append({'rel': f['rel'], 'size': rng.choice([0, 0, 3])})
-    return {'gid': gid, 'shape': shape, 'tree': tree, 'st': st, 'decoy': decoy,
-            'variants': variants_for(tree, rng), 'locs': [0, 1]}
+    g = {'gid': gid, 'shape': shape + ('+names' if special else ''), 'tree': tree, 'st': st, 'decoy': decoy,
+         'variants': variants_for(tree, rng), 'locs': [0, 1]}
+    if special:                       # the directory above the tree has such a name as well
+        g['parents'] = [['loc1', rng.choice(SPECIAL_NAMES)], ['deep', rng.choice(SPECIAL_NAMES), 'Other Parent', 'x']]
+    return g
 
 
 # ------------------------------------------------------------------------------------------
@@ -263,8 +329,9 @@ def build_fs(root, group):
     tree = group['tree']
     fs = []
     locs = []
+    parents = group.get('parents') or LOC_PARENTS
     for li in group['locs']:
-        parent = os.path.join(root, *LOC_PARENTS[li])
+        parent = os.path.join(root, *parents[li])
         os.makedirs(parent, exist_ok=True)
         loc = os.path.join(parent, tree['name'])
         for f in tree['files']:
@@ -289,26 +356,81 @@ def build_fs(root, group):
         else:
             _write(p, d['size'], 'decoy')
         fs.append([_comps(p), d['size']])
+    # home directories for the process environments: H holds *other* files under the names of the
+    # tree's entries (below H itself and below H/<tree name>), H0 is empty, H/../no-such-home is missing
+    H = os.path.join(root, 'H')
+    os.makedirs(os.path.join(root, 'H0'), exist_ok=True)
+    os.makedirs(H, exist_ok=True)
+    fs.append([_comps(H), None])
+    fs.append([_comps(os.path.join(root, 'H0')), None])
+    for base, extra in ((H, 1), (os.path.join(H, tree['name']), 2)):
+        for f in tree['files'][:6]:
+            p = os.path.join(base, *f['rel']) if f['rel'] else base
+            if os.path.lexists(p) or not p.startswith(H + '/'):
+                continue
+            try:
+                _write(p, f['size'] + extra, 'home')
+            except OSError:          # a file where a directory is needed (H/<name> is a file tree)
+                continue
+            fs.append([_comps(p), f['size'] + extra])
     return locs, U, fs
+
+
+_VAR_RX = re.compile(r'\$\{?([A-Za-z_][A-Za-z0-9_]*)\}?|%([A-Za-z_][A-Za-z0-9_]*)%')
+
+
+def penv_for(kind, root, group):
+    """the process environment of a variant: (variables to set, variables to remove)"""
+    names = {group['tree']['name']}
+    for f in group['tree']['files']:
+        names.update(f['rel'])
+    for pp in group.get('parents') or []:
+        names.update(pp)
+    mentioned = {'X', 'HOME'}
+    for n in names:
+        for m in _VAR_RX.finditer(n):
+            mentioned.add(m.group(1) or m.group(2))
+    mentioned -= {'PATH', 'PYTHONPATH', 'VERIF_REPO', 'VERIF_SCRATCH'}
+    if kind == 'decoy':
+        home = os.path.join(root, 'H')
+        return dict({k: home for k in mentioned}, HOME=home, USER='nobody', LOGNAME='nobody'), []
+    if kind == 'void':
+        home = os.path.join(root, 'H0')
+        return dict({k: home for k in mentioned}, HOME=home, USER='games', LOGNAME='games'), []
+    # 'gone' (also the default for recorded cases without a penv): a home directory that does not exist
+    return {'HOME': os.path.join(root, 'no-such-home'), 'USER': 'nosuchuser', 'LOGNAME': 'nosuchuser'}, \
+        sorted(mentioned - {'HOME'})
+
+
+_PLACEHOLDER = re.compile(r'\{(abs|name|P|absdd|abs_up|rel_from_U|child|grand)\}')
 
 
 def resolve_variant(v, loc, U, tree):
     parent = os.path.dirname(loc)
     name = tree['name']
+    child, grand = first_dirs(tree)
     if v['cwd'] == 'parent':
         cwd = parent
+    elif v['cwd'] == 'grandparent':
+        cwd = os.path.dirname(parent)
     elif v['cwd'] == 'tree':
         cwd = loc
     elif v['cwd'] == 'unrelated':
         cwd = U
-    else:
+    elif v['cwd'] == 'child':
+        cwd = os.path.join(loc, *child)
+    elif v['cwd'] == 'grand':
+        cwd = os.path.join(loc, *grand)
+    else:                                  # recorded cases: 'child:<relative path>'
         cwd = os.path.join(loc, v['cwd'].split(':', 1)[1])
     P = os.path.basename(parent)
-    spelling = v['spelling'].format(
-        abs=loc, name=name, P=P,
-        absdd=parent.replace('/', '//') + '//' + name,
-        abs_up=os.path.join(parent, '..', P, name),
-        rel_from_U=os.path.relpath(loc, U))
+    val = {'abs': loc, 'name': name, 'P': P,
+           'absdd': parent.replace('/', '//') + '//' + name,
+           'abs_up': os.path.join(parent, '..', P, name),
+           'rel_from_U': os.path.relpath(loc, U),
+           'child': '/'.join(child or []), 'grand': '/'.join(grand or [])}
+    # one pass: what is substituted is never read again (names may contain braces)
+    spelling = _PLACEHOLDER.sub(lambda m: val[m.group(1)], v['spelling'])
     return cwd, spelling
 
 
@@ -372,7 +494,12 @@ def _run_groups(groups):
                 for v in g['variants']:
                     cwd, spelling = resolve_variant(v, loc, U, tree)
                     r = {'loc': li, 'variant': v, 'cwd': cwd, 'spelling': spelling}
+                    saved_env = dict(os.environ)
                     try:
+                        setv, delv = penv_for(v.get('penv', 'gone'), root, g)
+                        os.environ.update(setv)
+                        for k in delv:
+                            os.environ.pop(k, None)
                         os.chdir(cwd)
                         state['seed'] = v['wseed']
                         # utils.list_files on its own (walk order recorded)
@@ -398,6 +525,8 @@ def _run_groups(groups):
                         r['obs'] = observe(torf, spelling, g['st'], g.get('thorough', False))
                     finally:
                         os.chdir(home)
+                        os.environ.clear()
+                        os.environ.update(saved_env)
                     res.append(r)
             out.append({'group': g, 'fs': fs, 'results': res})
             shutil.rmtree(root, ignore_errors=True)
@@ -488,14 +617,23 @@ def evaluate(ctx, drv, groups, thorough=False):
     replies = drv.run(reqs2)
 
     by_group = {}
+    abs_ref = {}
+    met = {}            # gid -> {(loc, variant index): created} of the variants that meet the specification
+    vidx = {}
     for (g, fs, r), rep in zip(flat, replies):
         by_group.setdefault(g['gid'], []).append((g, r, rep))
+        k = (g['gid'], r['loc'])
+        r['vidx'] = vidx[k] = vidx.get(k, -1) + 1
     for gid, items in by_group.items():
         specs = {json.dumps(rep['spec'], sort_keys=True) for _, _, rep in items}
         if len(specs) > 1:
             ctx.machinery_error('Spec.created differs between variants of one (tree, settings) group', items[0][0])
             continue
         ok_obs = []
+        # the absolute-path result of the group (C15_eq_absolute: every spelling must give it)
+        for g, r, rep in items:
+            if r['variant']['spelling'] == '{abs}' and r['variant']['cwd'] == 'unrelated' and gid not in abs_ref:
+                abs_ref[gid] = (r['spelling'], r['obs']['created'])
         for g, r, rep in items:
             tree = g['tree']
             v = r['variant']
@@ -503,13 +641,14 @@ def evaluate(ctx, drv, groups, thorough=False):
             I, S, M, hyp = obs['created'], rep['spec'], rep['model'], rep['hyp']
             sc = spell_class(r['spelling'])
             ntriv = len(tree['files']) >= 2 and not (v['cwd'] == 'parent' and v['spelling'] == '{name}')
-            key = (hashlib.sha1(json.dumps([tree, g['st']], sort_keys=True).encode()).hexdigest()[:12],
-                   r['loc'], v['cwd'], v['spelling'])
+            key = (hashlib.sha1(json.dumps([tree, g['st'], g.get('parents')], sort_keys=True).encode()).hexdigest()[:12],
+                   r['loc'], v['cwd'], v['spelling'], v.get('penv'))
             ctx.case(key=key, nontrivial=ntriv, kind=f"{g['shape']}/{v['cwd'].split(':')[0]}/{sc}")
+            ctx.dist['penv:' + v.get('penv', 'gone')] += 1
             ctx.dist['hyp' if hyp else 'outside-hyp'] += 1
             if any(g['st'].values()):
                 ctx.dist['with-patterns'] += 1
-            case = {'group': {k: g[k] for k in ('tree', 'st', 'decoy', 'shape')}, 'loc': r['loc'],
+            case = {'group': {k: g[k] for k in ('tree', 'st', 'decoy', 'shape', 'parents') if k in g}, 'loc': r['loc'],
                     'variant': v, 'cwd': r['cwd'], 'spelling': r['spelling'], 'spell_class': sc,
                     'hypParts': rep['hypParts'], 'model': M, 'spec': S}
             if not hyp:
@@ -519,8 +658,12 @@ def evaluate(ctx, drv, groups, thorough=False):
                 ctx.machinery_error('model != spec under hyp although C15_created_env is proved', case)
                 continue
             if I != S:
-                what = (f"Torrent({r['spelling']!r}) from cwd={v['cwd']} differs from the result that depends "
+                what = (f"Torrent({r['spelling']!r}) from cwd={v['cwd']} (process environment {v.get('penv', 'gone')!r}: HOME and the "
+                        f"variables named in file names point into the scratch area) differs from the result that depends "
                         f"only on tree and settings")
+                ref = abs_ref.get(gid)
+                if ref is not None and ref[1] == S and ref[0] != r['spelling']:
+                    what += f"; the absolute path of the same tree, Torrent({ref[0]!r}), gives that result"
                 if 'exc' in obs:
                     what += f" (raised {obs['exc']})"
                 ctx.violation(what, case, S, I, finding_matchers=MATCHERS)
@@ -541,6 +684,7 @@ def evaluate(ctx, drv, groups, thorough=False):
                 ctx.violation('Torrent.files is not name/path of the stored entries', case, want_files, obs['files'])
                 continue
             ok_obs.append((case, obs))
+            met.setdefault(gid, {})[(r['loc'], r['vidx'])] = (I, case)
             # list_files correspondence (not part of the specification)
             if 'listed' in r and r['order_ok'] and tree['files'] and not any(not f['rel'] for f in tree['files']):
                 got = [('/' + x.lstrip('/')) if x.startswith('//') else x for x in r['listed']]
@@ -558,6 +702,7 @@ def evaluate(ctx, drv, groups, thorough=False):
                 (a, ca), (b, cb) = list(vals.items())[:2]
                 ctx.violation(f'{field} differs between two variants of the same tree and settings',
                               {'a': ca, 'b': cb}, a, b)
+    return met
 
 
 # ------------------------------------------------------------------------------------------
@@ -614,6 +759,118 @@ def empty_family():
         gs.append({'gid': f'e{i}', 'shape': 'empty:' + tag, 'tree': tree, 'st': st, 'decoy': decoy,
                    'variants': variants_for(tree, rng), 'locs': [0, 1]})
     return gs
+
+
+# ------------------------------------------------------------------------------------------
+# names that some layer could interpret: the fixed family and the renaming twins
+
+def rename_map(names):
+    """an order- and dot-preserving renaming to plain names: the i-th name (code-point order, the
+    order of pathlib / Lean `String`) that does not start with a dot becomes n<i>, the dotted ones
+    .n<i>.  Hidden files are dropped, so only the order among the others has to be kept
+    (`Spec.opaqueB`)."""
+    rho = {}
+    for i, n in enumerate(sorted(n for n in names if not n.startswith('.'))):
+        rho[n] = f'n{i:03d}'
+    for i, n in enumerate(sorted(n for n in names if n.startswith('.'))):
+        rho[n] = f'.n{i:03d}'
+    return rho
+
+
+def tree_names(g):
+    names = {g['tree']['name']}
+    for f in g['tree']['files']:
+        names.update(f['rel'])
+    for d in g['tree'].get('dirs', []):
+        names.update(d)
+    return names
+
+
+def rename_group(g, rho, gid, variants):
+    t = g['tree']
+    tree = {'name': rho[t['name']], 'files': [{'rel': [rho[c] for c in f['rel']], 'size': f['size']} for f in t['files']],
+            'dirs': [[rho[c] for c in d] for d in t.get('dirs', [])]}
+    parents = [[rho.get(c, c) for c in pp] for pp in g['parents']] if g.get('parents') else None
+    g2 = {'gid': gid, 'shape': g['shape'] + ':twin', 'tree': tree, 'st': g['st'], 'decoy': [], 'locs': g['locs'],
+          'variants': variants}
+    if parents:
+        g2['parents'] = parents
+    return g2
+
+
+def rename_created(c, rho):
+    if c['kind'] == 'multi':
+        return {'kind': 'multi', 'name': rho.get(c['name'], c['name']),
+                'files': [[[rho.get(x, x) for x in p], n] for p, n in c['files']]}
+    if c['kind'] == 'single':
+        return {'kind': 'single', 'name': rho.get(c['name'], c['name']), 'size': c['size']}
+    return c
+
+
+TWIN_STRIDE = 5
+
+
+def special_family(rng):
+    """every name of SPECIAL_NAMES as the tree's name, as the name of the directory above it, as a
+    directory and a file inside it (with the sibling an interpreting layer would find instead):
+    all variants under the 'decoy' environment and a third of them under each of the others;
+    the same name as a single-file tree; with patterns made of the name; and the twin of the first
+    group under a renaming to plain names.  Returns (groups, [(big gid, twin gid, rho, big tree)])."""
+    gs, pairs = [], []
+    for i, N in enumerate(SPECIAL_NAMES):
+        sib = SPECIAL_SIBLINGS.get(N, 'b')
+        files = [{'rel': ['a'], 'size': 3}, {'rel': [N, N], 'size': 2}, {'rel': [N, 'b'], 'size': 1},
+                 {'rel': [N, 'c', N], 'size': 4}, {'rel': ['e0'], 'size': 0}]
+        if sib != 'a':
+            files.append({'rel': [sib], 'size': 5})
+        if sib != 'b':
+            files.append({'rel': [N, sib], 'size': 6})
+        tree = {'name': N, 'files': files, 'dirs': []}
+        variants = []
+        for v in variants_for(tree, rng, penvs=['decoy']):
+            variants.append(v)
+            for pe in ('void', 'gone'):
+                if rng.random() < 0.2:
+                    variants.append(dict(v, penv=pe, wseed=rng.randrange(1 << 30)))
+        big = {'gid': f'n{i}', 'shape': 'names:dir', 'tree': tree, 'st': dict(NOPAT), 'decoy': [],
+               'parents': [['loc1', N]], 'locs': [0], 'variants': variants}
+        gs.append(big)
+        rho = rename_map(tree_names(big) | {'loc1'})
+        gs.append(rename_group(big, rho, f'n{i}t', variants[::TWIN_STRIDE]))
+        pairs.append((big['gid'], f'n{i}t', rho, tree))
+        ftree = {'name': N, 'files': [{'rel': [], 'size': 3}], 'dirs': []}
+        P2 = SPECIAL_NAMES[(i * 7 + 3) % len(SPECIAL_NAMES)]
+        gs.append({'gid': f'n{i}f', 'shape': 'names:file', 'tree': ftree, 'st': dict(NOPAT), 'decoy': [],
+                   'parents': [['loc1', P2]], 'locs': [0], 'variants': variants_for(ftree, rng)})
+        st = dict(NOPAT, exg=[N + '/a', '*/' + N + '/b'], inr=['^' + re.escape(N) + '/' + re.escape(N) + '/b$'],
+                  exr=['/c/' + re.escape(N) + '$'])
+        gs.append({'gid': f'n{i}p', 'shape': 'names:patterns', 'tree': tree, 'st': st, 'decoy': [],
+                   'parents': [['loc1', P2]], 'locs': [0], 'variants': variants_for(tree, rng, full=False)})
+    return gs, pairs
+
+
+def evaluate_twins(ctx, drv, pairs, met):
+    """C15_names_opaque on the real code: the twin's results are the renamed results"""
+    reqs = [{'op': 'c15.opaque', 'name': tree['name'], 'files': tree['files'], 'st': NOPAT, 'st2': NOPAT,
+             'rho': sorted(rho.items()), 'cf': [], 'glob': [], 'rex': []} for _, _, rho, tree in pairs]
+    for (gid, tgid, rho, tree), rep in zip(pairs, drv.run(reqs)):
+        if not (rep['opaque'] and rep['cleanRenamed']):
+            ctx.machinery_error('the renaming of a twin group does not satisfy Spec.opaqueB / cleanTree', {'tree': tree, 'rho': rho})
+            continue
+        if not rep['eq']:
+            ctx.machinery_error('Spec.created of the renamed tree is not the renamed Spec.created although '
+                                'C15_names_opaque_spec is proved', {'tree': tree, 'rho': rho})
+            continue
+        for (loc, j), (It, tcase) in sorted(met.get(tgid, {}).items()):
+            big = met.get(gid, {}).get((loc, j * TWIN_STRIDE))
+            if big is None:                   # already reported as a deviation from the specification
+                continue
+            ctx.dist['rename-twin-compared'] += 1
+            want = rename_created(big[0], rho)
+            if It != want:
+                ctx.violation('renaming all names of the tree to plain names (same order, same leading dots) changes more '
+                              'than the names in the created torrent: some name was interpreted',
+                              dict(big[1], twin={'rho': rho, 'case': tcase}), want, It)
 
 
 # ------------------------------------------------------------------------------------------
@@ -1169,7 +1426,9 @@ def run(ctx, drv):
             if ctx.dist.get('known-finding:' + f['id'], 0) == before:
                 ctx.not_reproduced.append(f['id'])
     # 2. corpus, 3. the fixed family of trees with empty files, 4. generated groups
-    evaluate(ctx, drv, corpus_groups() + empty_family() + gen_groups(ctx), thorough=ctx.thorough)
+    fam, pairs = special_family(random.Random(156))
+    met = evaluate(ctx, drv, corpus_groups() + empty_family() + fam + gen_groups(ctx), thorough=ctx.thorough)
+    evaluate_twins(ctx, drv, pairs, met)
     # 5. the `files` setter against its model (correspondence only)
     evaluate_files_setter(ctx, drv, files_setter_cases(ctx.rng, ctx.n(60, 600)))
     # 6. histories of settings on one object against the fresh object and the model
@@ -1200,6 +1459,15 @@ def replay(ctx, drv, rp):
     g['locs'] = [case.get('loc', 0)]
     g['tree'].setdefault('dirs', [])
     g['variants'] = [case['variant']]
+    if 'twin' in case:            # a renaming twin: the original and its twin under the same variant
+        rho = case['twin']['rho']
+        g2 = rename_group(g, rho, 'replay-twin', [case['variant']])
+        met = evaluate(ctx, drv, [g, g2], thorough=False)
+        a, b = met.get('replay', {}).get((g['locs'][0], 0)), met.get('replay-twin', {}).get((g['locs'][0], 0))
+        if a and b and rename_created(a[0], rho) != b[0]:
+            ctx.violation('renaming all names of the tree changes more than the names', case, rename_created(a[0], rho), b[0])
+        return {'fails': bool(ctx.violations or ctx.known or ctx.corr_breaks),
+                'violations': ctx.violations, 'known': list(ctx.known), 'corr_breaks': ctx.corr_breaks}
     evaluate(ctx, drv, [g], thorough=False)
     return {'fails': bool(ctx.violations or ctx.known or ctx.corr_breaks),
             'violations': ctx.violations, 'known': list(ctx.known), 'corr_breaks': ctx.corr_breaks}
